@@ -257,7 +257,7 @@ func wrapperFunc(m dsl.Matcher) {
 		`if $i := strings.Index($s, $sep); $i >= 0 { $*_; $x, $y = $s[:$i], $s[$i+1:]; $*_ }`,
 		`if $i := strings.Index($s, $sep); $i >= 0 { $*_; $x = $s[:$i]; $*_; $y = $s[$i+1:]; $*_ }`).
 		Where(m.GoVersion().GreaterEqThan("1.18")).
-		Suggest("if $x, $y, ok = strings.Cut($s, $sep); ok { ... }")
+		Report("suggestion: if $x, $y, ok = strings.Cut($s, $sep); ok { ... }")
 
 	m.Match(`bytes.SplitN(b, []byte("."), -1)`).Report("use bytes.Split method in `$$`")
 	m.Match(`bytes.Replace($_, $_, $_, -1)`).Report("use bytes.ReplaceAll method in `$$`")
